@@ -141,6 +141,12 @@ func (r *runner) at(p *proc, point string, kv []interface{}) {
 		}
 		if point == "store.ret" {
 			p.depth--
+			// ... and a gate right after a store read made inside another one has returned (between the parts of a
+			// composite read)
+			if p.gated && p.depth >= 1 {
+				p.arrived <- "store"
+				<-p.gate
+			}
 			return
 		}
 		p.depth++
